@@ -141,6 +141,29 @@ func runC05(c *Ctx) {
 		d = fmt.Sprintf("with a well-formed size argument the path returning at %s consumes no chunk: the declared octets stay in the command stream and are executed as commands", c.P.InstrPos(res.MinExit))
 	}
 	R.Ob("(*Conn).handleBdat/every sized path consumes the chunk", c.P.InstrPos(res.MinExit), res.Min >= 1, d)
+	// the dispatcher hands every BDAT line to handleBdat and does not answer it itself: a refusal issued one level up
+	// (before the size is even parsed) leaves the chunk in the command stream
+	if hf := c.A.Func("(*Conn).handle"); hf != nil {
+		Hd := []string{verbTag(c) + ` == "BDAT"`, `param1 != ""`}
+		c.obMustUnder("BDAT reaches handleBdat", hf, []string{"call:(*Conn).handleBdat"}, Hd...)
+		v := RunPend(hf, PendRule{
+			StartPending: true,
+			Disch:        func(in ssa.Instruction) bool { return isStaticCall(in, "(*Conn).handleBdat") },
+			Forbid: func(in ssa.Instruction) bool {
+				if _, isDefer := in.(*ssa.Defer); isDefer || isStaticCall(in, "(*Conn).handleBdat") {
+					return false
+				}
+				return s.InstrMay(in)["reply"]
+			},
+			SkipEdge: c.F.SkipUnder(Hd...),
+			PhiOK:    c.F.PhiFeasible(Hd...),
+		})
+		d := ""
+		if len(v) > 0 {
+			d = fmt.Sprintf("the dispatcher itself can answer a BDAT command at %s without entering handleBdat: the declared chunk is not consumed and its octets are executed as commands", c.P.InstrPos(v[0].At))
+		}
+		R.Ob("(*Conn).handle/BDAT answered only by handleBdat", c.P.Pos(hf.Pos()), len(v) == 0, d)
+	}
 	// failed pipe copy => remainder discarded
 	for _, cp := range s.Find(f, "copy-to:Conn.bdatPipe") {
 		cp := cp
@@ -200,7 +223,7 @@ func runC05(c *Ctx) {
 
 	ruleBdatAccounting(c, bi)
 	ruleDrainFailureCloses(c) // a chunk that cannot be consumed to its declared size ends the connection
-	ruleResetEffects(c) // no per-message chunk state (total, collector, pipe) survives into the next message
+	ruleResetEffects(c)       // no per-message chunk state (total, collector, pipe) survives into the next message
 
 	R.Rule("R-bdat-one-reply", "E2 path counting", "every path through handleBdat emits exactly one final reply (per accepted recipient in LMTP)", 1)
 	ruleReplyCountFor(c, []string{"(*Conn).handleBdat"})
